@@ -119,6 +119,13 @@ func init() {
 		nu := pick(c, 4, 5)
 		c.Cov.Bound["undo_family.Nmax"] = nu
 		BFS(c, &HistFamily{Nmax: nu, Insts: stdInsts(pick(c, []uint8{0, 63}, []uint8{0, 3, 63}), []string{"all", "even"})[1:], Or: HistOracle{Proofs: true, Prop: "C02"}, UndoBud: 1, PermLimit: 2}, 0)
+		// a FULL map forest started from the bare roots of a reachable state and evolved further
+		// (blocks, Verify(remember), Undo): its tracked leaves must be provable canonically
+		nf := pick(c, 3, 4)
+		c.Cov.Bound["full_from_roots.Nmax"] = nf
+		for _, tr := range []uint8{63} {
+			BFS(c, &PartialFamily{Nmax: nf, TR: tr, UndoBud: 1, FRBud: 1, FullFR: true, SetLimit: 2, NoIngest: true, Prop: "C02"}, 0)
+		}
 		tallFamily(c, "C02")
 	}
 
